@@ -94,6 +94,7 @@ class Gen:
     def shareable(self, visible, in_rec):
         out = []
         lazy_ok = self.rng.random() < self.p.get('p_share_lazy', 0.15)
+        cand_ok = self.rng.random() < self.p.get('p_share_cand', 0.1)
         pool = list(visible)
         if lazy_ok:
             # finished case nodes of switches anywhere below (outside candidates / recurrent subgraphs): e.g.
@@ -106,8 +107,8 @@ class Gen:
                 continue
             if 'case' in f and not lazy_ok:
                 continue        # a case that is also consumed directly (C09: "reused")
-            if 'cand' in f and self.hostile != 'candidate_shared':
-                continue        # a candidate that is also consumed directly: hostile family (D14)
+            if 'cand' in f and self.hostile != 'candidate_shared' and not cand_ok:
+                continue        # a candidate that is also consumed directly (D14, repaired as D34): a feature family
             out.append(nid)
         return out
 
@@ -596,16 +597,23 @@ def _ordered_after(prog, cons, y, dest):
         return False
     if y in rcons or rcons & ancestors(prog, y):
         return True
-    # y inside a case sub-pipeline whose decider is ordered after dest
+    # y is a case of switches whose deciders are ordered after dest - and nothing else consumes it (a case that is
+    # also consumed directly belongs to the sub-pipeline of that consumer and starts as soon as it is ready)
+    reach = reachable(prog)
+    if any(k != 'case' for c, _, k in cons.get(y, []) if c in reach):
+        return False
+    ordered = unordered = 0
     for nid, node in prog['nodes'].items():
+        if nid not in reach:
+            continue
         for _, m in node.get('params', []):
-            if m[0] == 'sw':
+            if m[0] == 'sw' and any(y == c for _, c in m[3]):
                 dec_anc = ancestors(prog, m[2]) | {m[2]}
                 if rcons & dec_anc:
-                    for _, c in m[3]:
-                        if y == c:
-                            return True
-    return False
+                    ordered += 1
+                else:
+                    unordered += 1
+    return ordered > 0 and unordered == 0
 
 
 def _scope_ordered_after(prog, cons, root, dest):
